@@ -1685,6 +1685,26 @@ FIXED_CASES = [
     # creation with zero rows through data=[]
     [["create_dict", [["a", "i64"], ["s", "text"]], []], _acc(["append_rows", [[["i", 1], ["s", "x"]]]])],
     [["create_names_types", ["a", "s"], ["i64", "text"], []]],
+    # rows and creation data as NumPy structured arrays: by position, whatever the field names and the layout
+    [["create_dict", [["trial", "i64"], ["amplitude", "f64"], ["label", "text"]], [[["i", 10], ["f", "3/2"], ["s", "first"]]]],
+     _acc(["append_rows", [[["i", 1], ["f", "1/4"], ["s", "alpha"]], [["i", 2], ["f", "1/2"], ["s", "g\u00e4mma"]]],
+           {"how": "frame", "read": "rows", "rec": [["trial", "i64"], ["amp", "f64"], ["label", "text"]]}]),
+     _acc(["append_rows", [[["i", 7], ["f", "5/2"], ["s", "x"]]],
+           {"how": "array", "rec": [["label", "i32"], ["trial", "f64"], ["amplitude", "text"]]}]),
+     _acc(["write_rows", [[["i", 3], ["f", "3/4"], ["s", "z"]], [["i", 4], ["f", "1/1"], ["s", ""]]], [0, -1],
+           {"how": "view", "mem": [2, 0, 1], "pad": 2, "rec": [["amplitude", "i8"], ["trial", "f64"], ["label", "text"]]}]),
+     _acc(["write_row_flat", [["i", 5], ["f", "7/4"], ["s", "v"]], [1],
+           {"how": "voids", "rec": [["a", "u8"], ["b", "f64"], ["d", "text"]]}]),
+     {"line": ["append_rows", [[["i", 1], ["f", "1/4"]]], {"how": "array", "rec": [["trial", "i64"], ["amplitude", "f64"]]}],
+      "expect": "a row of the wrong length"}],
+    [["create_struct", [["stop", "f64"], ["trial", "i64"], ["ok", "bool"]],
+      [[["f", "41/4"], ["i", 1], ["b", True]], [["f", "83/4"], ["i", 2], ["b", False]]], {"how": "view", "mem": [1, 0, 2], "pad": 1}]],
+    [["create_struct", [["side", "text"], ["start", "f64"], ["trial", "i16"]],
+      [[["s", "left"], ["f", "1/2"], ["i", 1]], [["s", "m\u00efddle"], ["f", "5/2"], ["i", 3]]], {"how": "array", "mem": [2, 1, 0]}]],
+    [["create_names_data", ["p", "q"], [[["i", -128], ["s", "x"]], [["i", 127], ["s", "y"]]],
+      {"how": "array", "mem": [1, 0], "rec": [["q", "i8"], ["p", "text"]]}]],
+    [["create_names_types", ["a", "b"], ["i64", "text"], [[["i", 1], ["s", "x"]], [["i", 2], ["s", "y"]]],
+      {"how": "frame", "read": "columns", "mem": [1, 0], "rec": [["b", "i32"], ["a", "text"]]}]],
     # first / last / negative addresses on every write
     [["create_dict", [["a", "u8"], ["b", "bool"], ["c", "f64"]],
       [[["i", 0], ["b", False], ["f", "0/1"]], [["i", 255], ["b", True], ["f", "-9/4"]], [["i", 3], ["b", True], ["f", "1/2"]]]],
